@@ -7,6 +7,9 @@ HERE = os.path.dirname(os.path.abspath(__file__))
 CBMC_CHECKS = ['--bounds-check', '--pointer-check', '--pointer-overflow-check', '--div-by-zero-check',
                '--signed-overflow-check', '--conversion-check', '--undefined-shift-check', '--pointer-primitive-check', '--object-bits', '12']
 MEM_KB = 12 * 1024 * 1024
+LIBC = {'malloc', 'free', 'realloc', 'calloc', 'memcpy', 'memmove', 'memset', 'memcmp', 'strlen', 'strcmp', 'strncmp', 'strcpy', 'floor', 'ceil', 'round', 'fabs', 'isnan', 'isinf',
+        'pow', 'sqrt', 'abort', 'exit', 'trunc', 'fmod', 'lround', 'llround', 'nearbyint', 'rint', '__builtin_isnan', '__builtin_isinf', '__isnan', '__isinf', '__fpclassify', '__signbit',
+        '__builtin_nan', '__builtin_inf', '__builtin_huge_val', 'nan', '__isnanf', '__isinff', '__builtin_fabs', '__builtin_floor', '__builtin_ceil'}
 
 class Undecided(Exception):
     pass
@@ -115,6 +118,15 @@ def run_job(job):
     rc, out, _ = sh(['goto-cc', '--function', job.entry] + inc + defs + [job.cfile, '-o', base + '.a.gb'], 120)
     if rc != 0:
         return {'status': 'undecided', 'reason': 'goto-cc failed', 'log': out, 'results': [], 'wall': time.time() - t0, 'cmd': ''}
+    # an undeclared callee is an implicit declaration in C and would silently become a nondeterministic function
+    known = getattr(job, 'known', None)
+    if known is not None:
+        rc, out_u, _ = sh(['goto-instrument', '--list-undefined-functions', base + '.a.gb'], 120)
+        und = [l.strip() for l in out_u.splitlines() if re.match(r'^[A-Za-z_]\w*$', l.strip())]
+        bad = [u for u in und if not u.startswith('__CPROVER') and u not in known and u not in LIBC]
+        if bad:
+            return {'status': 'undecided', 'reason': 'call of undeclared function(s) %s: the extraction produced a name no header declares' % ', '.join(sorted(bad)),
+                    'log': out_u, 'results': [], 'wall': time.time() - t0, 'cmd': ''}
     cmd_i = ['goto-instrument', '--dfcc', job.entry]
     for f in job.enforce: cmd_i += ['--enforce-contract', f]
     for f in job.replace: cmd_i += ['--replace-call-with-contract', f]
